@@ -50,6 +50,7 @@ def gen_args(rng, large=False):
     if rng.random() < 0.5:
         return {
             "kw": kw,
+            "relative": rng.random() < 0.5,
             "r": rng.choice(RADII[:3] if large else RADII),
             "origin": [rng.choice([0.0, 0.3, -0.7, 1.4, 0.5]) for _ in range(3)],
             "bounds": rng.choice(BOUNDS),
@@ -65,6 +66,7 @@ def gen_args(rng, large=False):
         size[rng.randrange(3)] = 2
     return {
         "kw": kw,
+        "relative": rng.random() < 0.5,
         "r": round(rng.uniform(1.0, 4.5 if large else 12.0), 3),
         "origin": [round(rng.uniform(-1.5, 2.5), 4) for _ in range(3)],
         "bounds": [lo, hi],
